@@ -1,16 +1,489 @@
-use mithril_merkle_tree::*;
-fn main() {
-    let leaves: Vec<MKTreeNode> = (0..5).map(|i| MKTreeNode::new(format!("leaf-{i}").into_bytes())).collect();
-    let t = MKTree::<MKTreeStoreInMemory>::new(&leaves).unwrap();
-    let p = t.compute_proof(&leaves[1..3]).unwrap();
-    println!("{}", serde_json::to_string(&p).unwrap());
+//! mon-merkle: runtime monitor for C09 - "Merkle membership proofs cannot vouch for anything outside
+//! the committed set" - over (a) the STM signer-registration tree, (b) MKTree/MKProof, (c) nested
+//! MKMap/MKMapProof and the MkSetProof entities.
+//!
+//!   mon-merkle C09 --tier quick|thorough [--replay FILE]
+//!   mon-merkle C09 --miri-workload          (tiny deterministic workload for `cargo miri run`, see below)
+//!
+//! Miri sub-mode (pure Rust parts (b)/(c) only, no blst in the dependency graph):
+//!   cd /verif/harness && MIRIFLAGS="-Zmiri-disable-isolation" CARGO_TARGET_DIR=/verif/harness/target-merkle-miri \
+//!     cargo +nightly miri run --offline -p mon-merkle --no-default-features -- C09 --miri-workload
+mod mk;
+mod mkmap;
+mod refs;
+#[cfg(feature = "full")]
+mod setproof;
+#[cfg(feature = "full")]
+mod stm;
+
+use mk::TreeCtx;
+use serde_json::{json, Value};
+use vcore::{rnd, Monitor, Tier};
+
+#[derive(Clone, Debug)]
+enum Task {
     #[cfg(feature = "full")]
-    {
-        use mithril_common::entities::BlockRange;
-        let m: MKMap<BlockRange, MKMapNode<BlockRange, MKTreeStoreInMemory>, MKTreeStoreInMemory> =
-            MKMap::new(&[(BlockRange::from(0..15), t.into()), (BlockRange::from(15..30), MKTree::<MKTreeStoreInMemory>::new(&["a", "b"]).unwrap().into())]).unwrap();
-        let mp = m.compute_proof(&[leaves[1].clone(), MKTreeNode::from("a")]).unwrap();
-        println!("{}", serde_json::to_string(&mp).unwrap());
-        println!("{:?}", mp.to_bytes().unwrap());
+    StmExhaustive { n: usize, chunk: u64, nchunks: u64 },
+    #[cfg(feature = "full")]
+    StmSampled { shard: u64 },
+    MkExhaustive { n: usize, chunk: u64, nchunks: u64 },
+    MkSampled { shard: u64 },
+    MapExhaustive { shard: u64, nshards: u64 },
+    MapSampled { shard: u64 },
+    #[cfg(feature = "full")]
+    SetProof { shard: u64 },
+}
+
+struct Sizes {
+    exhaustive_n: usize,
+    pairs: usize,
+    stm_sampled_shards: u64,
+    stm_trees: usize,
+    mk_sampled_shards: u64,
+    mk_trees: usize,
+    map_exh_max_ranges: usize,
+    map_sampled_shards: u64,
+    map_worlds: usize,
+    set_shards: u64,
+    set_worlds: usize,
+}
+
+fn sizes(t: Tier) -> Sizes {
+    match t {
+        Tier::Quick => Sizes {
+            exhaustive_n: 12,
+            pairs: 2,
+            stm_sampled_shards: 8,
+            stm_trees: 5,
+            mk_sampled_shards: 8,
+            mk_trees: 5,
+            map_exh_max_ranges: 2,
+            map_sampled_shards: 16,
+            map_worlds: 8,
+            set_shards: 8,
+            set_worlds: 8,
+        },
+        Tier::Thorough => Sizes {
+            exhaustive_n: 12,
+            pairs: 40,
+            stm_sampled_shards: 64,
+            stm_trees: 24,
+            mk_sampled_shards: 64,
+            mk_trees: 24,
+            map_exh_max_ranges: 3,
+            map_sampled_shards: 96,
+            map_worlds: 40,
+            set_shards: 48,
+            set_worlds: 40,
+        },
     }
+}
+
+/// subsets of {0..n-1} as bit masks 1..2^n-1, the ones of this chunk
+fn chunk_masks(n: usize, chunk: u64, nchunks: u64) -> impl Iterator<Item = u64> {
+    (1u64..(1u64 << n)).filter(move |m| m % nchunks == chunk)
+}
+fn mask_to_sel(mask: u64, n: usize) -> Vec<usize> {
+    (0..n).filter(|i| mask >> i & 1 == 1).collect()
+}
+
+fn sampled_sizes(rng: &mut rand_chacha::ChaCha20Rng, max: usize, count: usize) -> Vec<usize> {
+    // boundary shapes (2^k - 1, 2^k, 2^k + 1) and random sizes above the exhaustive range
+    let mut pool: Vec<usize> = vec![13, 14, 15, 16, 17, 23, 31, 32, 33, 63, 64, 65, 100, 127, 128, 129, 255, 256, 257, 511, 512, 513, 600, 1023, 1024, 1025, 2000];
+    pool.retain(|x| *x <= max);
+    (0..count).map(|i| if i % 2 == 0 { *rnd::pick(rng, &pool) } else { 13 + rnd::usize_below(rng, max - 12) }).collect()
+}
+
+fn random_selection(rng: &mut rand_chacha::ChaCha20Rng, n: usize) -> Vec<usize> {
+    let k = match rnd::below(rng, 6) {
+        0 => 1,
+        1 => n.min(2),
+        2 => n.min(1 + rnd::usize_below(rng, 16)),
+        3 => n.min(1 + rnd::usize_below(rng, 6)),
+        // a contiguous run (many siblings inside the batch)
+        4 => n.min(2 + rnd::usize_below(rng, 10)),
+        _ => n.min(1 + rnd::usize_below(rng, 4)),
+    };
+    let mut s: Vec<usize> = if rnd::chance(rng, 1, 3) {
+        let start = rnd::usize_below(rng, n - k + 1);
+        (start..start + k).collect()
+    } else {
+        (0..k).map(|_| rnd::usize_below(rng, n)).collect()
+    };
+    // always exercise the right edge now and then (last leaf, padding neighbour)
+    if rnd::chance(rng, 1, 4) {
+        s.push(n - 1);
+    }
+    s.sort();
+    s.dedup();
+    s
+}
+
+#[cfg(feature = "full")]
+fn run_stm_exhaustive(pool: &[mithril_stm::VerificationKeyForConcatenation], n: usize, chunk: u64, nchunks: u64, pairs: usize, mon: &mut Monitor) {
+    let mut trng = mon.rng("a-exhaustive-tree", n as u64);
+    let ctx = stm::Ctx::gen(pool, n, false, &mut trng);
+    let Some((tree, commitment)) = stm::open_tree(&ctx, mon) else { return };
+    let mut rng = mon.rng("a-exhaustive", (n as u64) << 32 | chunk);
+    for mask in chunk_masks(n, chunk, nchunks) {
+        stm::run_selection(&ctx, &tree, &commitment, &mask_to_sel(mask, n), true, pairs, &mut rng, mon);
+        mon.count(&format!("a:exhaustive_subsets_n={n:02}"));
+    }
+}
+
+#[cfg(feature = "full")]
+fn run_stm_sampled(pool: &[mithril_stm::VerificationKeyForConcatenation], shard: u64, sz: &Sizes, mon: &mut Monitor) {
+    let mut rng = mon.rng("a-sampled", shard);
+    for n in sampled_sizes(&mut rng, 600, sz.stm_trees) {
+        let ctx = stm::Ctx::gen(pool, n, rnd::chance(&mut rng, 1, 6), &mut rng);
+        let Some((tree, commitment)) = stm::open_tree(&ctx, mon) else { continue };
+        mon.count("a:sampled_trees");
+        for _ in 0..4 {
+            let sel = random_selection(&mut rng, n);
+            stm::run_selection(&ctx, &tree, &commitment, &sel, false, sz.pairs * 4, &mut rng, mon);
+        }
+    }
+}
+
+fn run_mk_exhaustive(n: usize, chunk: u64, nchunks: u64, pairs: usize, mon: &mut Monitor) {
+    let mut trng = mon.rng("b-exhaustive-tree", n as u64);
+    let leaves = mk::gen_leaves(&mut trng, n, n as u64, &format!("t{n}"));
+    let foreign = mk::gen_leaves(&mut trng, 3, n as u64, "foreign");
+    let ctx = TreeCtx::new(&format!("exh{n}"), leaves, foreign);
+    let Ok(tree) = ctx.build_real() else {
+        mon.inconclusive("MKTree::new failed");
+        return;
+    };
+    let mut rng = mon.rng("b-exhaustive", (n as u64) << 32 | chunk);
+    if chunk == 0 {
+        mk::run_alt_preimages(&ctx, &mut rng, 6, mon);
+        check_construction_orders(&ctx, mon);
+    }
+    for mask in chunk_masks(n, chunk, nchunks) {
+        mk::run_selection(&ctx, &tree, &mask_to_sel(mask, n), true, pairs, &mut rng, mon);
+        mon.count(&format!("b:exhaustive_subsets_n={n:02}"));
+    }
+}
+
+/// root of the library tree is the reference root whether built at once or by appends
+fn check_construction_orders(ctx: &TreeCtx, mon: &mut Monitor) {
+    use mithril_merkle_tree::MKTreeNode;
+    let nodes: Vec<MKTreeNode> = ctx.leaves.iter().map(|l| MKTreeNode::new(l.clone())).collect();
+    let at_once = mk::Tree::new(&nodes).and_then(|t| t.compute_root());
+    let appended = mk::Tree::new(&nodes[..1]).and_then(|mut t| {
+        for x in &nodes[1..] {
+            t.append(std::slice::from_ref(x))?;
+        }
+        t.compute_root()
+    });
+    mon.eval();
+    match (at_once, appended) {
+        (Ok(a), Ok(b)) if a.as_slice() == ctx.root.as_slice() && b.as_slice() == ctx.root.as_slice() => mon.count("b:root_equals_reference_mmr(two constructions)"),
+        (a, b) => mon.violation(
+            "C09 MKTree root disagrees with the reference MMR root",
+            &format!("at once: {:?}, appended: {:?}, reference: {}", a.map(|x| x.to_hex()).ok(), b.map(|x| x.to_hex()).ok(), hex::encode(&ctx.root)),
+            json!({"kind": "mkproof-gen", "tree": ctx.to_json()}),
+        ),
+    }
+}
+
+fn run_mk_sampled(shard: u64, sz: &Sizes, mon: &mut Monitor) {
+    let mut rng = mon.rng("b-sampled", shard);
+    for (i, n) in sampled_sizes(&mut rng, 2000, sz.mk_trees).into_iter().enumerate() {
+        let style = shard + i as u64;
+        let leaves = mk::gen_leaves(&mut rng, n, style, &format!("s{shard}t{i}"));
+        let foreign = mk::gen_leaves(&mut rng, 3, style, "foreign");
+        let ctx = TreeCtx::new(&format!("s{shard}t{i}"), leaves, foreign);
+        let Ok(tree) = ctx.build_real() else { continue };
+        mon.count("b:sampled_trees");
+        check_construction_orders(&ctx, mon);
+        mk::run_alt_preimages(&ctx, &mut rng, 3, mon);
+        for _ in 0..4 {
+            let sel = random_selection(&mut rng, n);
+            mk::run_selection(&ctx, &tree, &sel, false, sz.pairs * 4, &mut rng, mon);
+        }
+    }
+}
+
+/// all maps with 1..=max_ranges ranges of 1..=3 leaves, all non-empty selections of their leaves
+fn run_map_exhaustive(shard: u64, nshards: u64, max_ranges: usize, pairs: usize, mon: &mut Monitor) {
+    let mut shapes: Vec<Vec<usize>> = vec![];
+    for r in 1..=max_ranges {
+        let mut idx = vec![1usize; r];
+        loop {
+            shapes.push(idx.clone());
+            let mut p = 0;
+            while p < r {
+                idx[p] += 1;
+                if idx[p] <= 3 {
+                    break;
+                }
+                idx[p] = 1;
+                p += 1;
+            }
+            if p == r {
+                break;
+            }
+        }
+    }
+    for (si, shape) in shapes.iter().enumerate() {
+        if si as u64 % nshards != shard {
+            continue;
+        }
+        let mut rng = mon.rng("c-exhaustive", si as u64);
+        let entries: Vec<((u64, u64), mkmap::RefNode)> = shape
+            .iter()
+            .enumerate()
+            .map(|(r, n)| {
+                let tag = format!("x{si}r{r}");
+                ((15 * (r as u64 + 1), 15 * (r as u64 + 2)), mkmap::RefNode::Tree(TreeCtx::new(&tag, mk::gen_leaves(&mut rng, *n, si as u64, &tag), vec![b"foreign-a".to_vec(), b"foreign-b".to_vec()])))
+            })
+            .collect();
+        let foreign = mk::gen_leaves(&mut rng, 3, si as u64, "foreign");
+        let Ok(w) = mkmap::MapWorld::new(mkmap::MapCtx::new(entries), foreign) else {
+            mon.inconclusive("MKMap::new failed");
+            continue;
+        };
+        mon.count("c:exhaustive_map_shapes");
+        let total = w.bottom.len();
+        for mask in 1u64..(1 << total) {
+            let sel: Vec<Vec<u8>> = mask_to_sel(mask, total).into_iter().map(|i| w.bottom[i].clone()).collect();
+            mkmap::run_selection(&w, &sel, 30, pairs, &mut rng, mon);
+            mon.count("c:exhaustive_selections");
+        }
+    }
+}
+
+fn run_map_sampled(shard: u64, sz: &Sizes, mon: &mut Monitor) {
+    let mut rng = mon.rng("c-sampled", shard);
+    for wi in 0..sz.map_worlds {
+        let ranges = 1 + rnd::usize_below(&mut rng, 8);
+        let nested = wi % 4 == 3;
+        let w = match mkmap::gen_world(&mut rng, ranges, 20, nested, shard + wi as u64) {
+            Ok(w) => w,
+            Err(e) => {
+                mon.inconclusive(&format!("cannot build a map world: {e}"));
+                continue;
+            }
+        };
+        mon.count(if nested { "c:sampled_worlds_nested" } else { "c:sampled_worlds" });
+        mon.count(&format!("c:ranges={ranges}"));
+        for _ in 0..3 {
+            let k = 1 + rnd::usize_below(&mut rng, w.bottom.len().min(6));
+            let mut sel: Vec<Vec<u8>> = (0..k).map(|_| rnd::pick(&mut rng, &w.bottom).clone()).collect();
+            sel.sort();
+            sel.dedup();
+            mkmap::run_selection(&w, &sel, 40, sz.pairs * 4, &mut rng, mon);
+        }
+    }
+}
+
+#[cfg(feature = "full")]
+fn run_setproof(shard: u64, sz: &Sizes, mon: &mut Monitor) {
+    let mut rng = mon.rng("c-setproof", shard);
+    for _ in 0..sz.set_worlds {
+        let ranges = 1 + rnd::usize_below(&mut rng, 5);
+        match setproof::gen_world(&mut rng, ranges, mon) {
+            Ok(w) => setproof::run_world(&w, &mut rng, 2, mon),
+            Err(e) => mon.inconclusive(&format!("cannot build a set-proof world: {e}")),
+        }
+        setproof::run_legacy(&mut rng, mon);
+    }
+}
+
+fn replay(path: &std::path::Path, mon: &mut Monitor) -> bool {
+    let Ok(txt) = std::fs::read_to_string(path) else { return false };
+    let Ok(doc) = serde_json::from_str::<Value>(&txt) else { return false };
+    let r = if doc.get("replay").is_some() { &doc["replay"] } else { &doc };
+    let hexlist = |v: &Value| v.as_array().map(|a| a.iter().filter_map(|x| hex::decode(x.as_str()?).ok()).collect::<Vec<_>>());
+    match r["kind"].as_str() {
+        Some("mkproof") => {
+            let (Some(leaves), Some(p)) = (hexlist(&r["tree"]["committed_leaves_hex"]), mk::ProofM::from_json(&r["proof"])) else { return false };
+            let foreign = hexlist(&r["tree"]["foreign_leaves_hex"]).filter(|f| !f.is_empty()).unwrap_or_else(|| vec![b"foreign".to_vec()]);
+            let ctx = TreeCtx::new(r["tree"]["label"].as_str().unwrap_or("replay"), leaves, foreign);
+            let v = mk::judge(&ctx, &p, r["class"].as_str().unwrap_or("replay"), mon);
+            println!("replay: MKProof case -> {v:?}");
+            true
+        }
+        Some("mkmap") => {
+            let (Some(mkmap::RefNode::Map(top)), Some(p)) = (mkmap::RefNode::from_json(&r["map"]), mkmap::MapProofM::from_json(&r["proof"])) else { return false };
+            let Ok(w) = mkmap::MapWorld::new(top, vec![b"foreign-1".to_vec(), b"foreign-2".to_vec()]) else { return false };
+            let v = mkmap::judge(&w, &p, r["class"].as_str().unwrap_or("replay"), mon);
+            println!("replay: MKMapProof case -> {v:?}");
+            true
+        }
+        #[cfg(feature = "full")]
+        Some("stm") => stm::replay(r, mon),
+        _ => false,
+    }
+}
+
+fn miri_workload(seed: u64) -> ! {
+    // small, deterministic, pure Rust: generation + bincode decoding + verification + contains on
+    // (b) MKTree/MKProof and (c) MKMap/MKMapProof. Semantic verdicts are the business of the normal
+    // run; here the point is that Miri watches the executions (UB, aliasing, uninitialised reads).
+    let mut mon = Monitor::with("C09", Tier::Quick, seed);
+    let mut rng = mon.rng("miri", 0);
+    for n in [1usize, 2, 3, 5, 8] {
+        let leaves = mk::gen_leaves(&mut rng, n, n as u64, &format!("m{n}"));
+        let ctx = TreeCtx::new(&format!("miri{n}"), leaves, vec![b"foreign-a".to_vec(), b"foreign-b".to_vec()]);
+        let tree = ctx.build_real().expect("tree");
+        if n >= 2 {
+            mk::run_alt_preimages(&ctx, &mut rng, 1, &mut mon);
+        }
+        let mut sels = vec![vec![0], vec![n - 1]];
+        if n > 2 {
+            sels.push(vec![0, n - 1]);
+        }
+        for sel in sels {
+            let Some(m) = mk::honest(&ctx, &tree, &sel, &mut mon) else { continue };
+            mk::judge(&ctx, &m, "identity", &mut mon);
+            let ops = mk::enumerate_ops(&m, &ctx, true, &mut rng);
+            for (i, op) in ops.iter().enumerate() {
+                if i % 9 == (n % 9) {
+                    if let Some(c) = mk::apply(&m, op, &ctx) {
+                        mk::judge(&ctx, &c, &op.class(), &mut mon);
+                    }
+                }
+            }
+        }
+    }
+    let w = mkmap::gen_world(&mut rng, 2, 3, false, 2).expect("map world");
+    let sel = vec![w.bottom[0].clone(), w.bottom[w.bottom.len() - 1].clone()];
+    if let Some(m) = mkmap::honest(&w, &sel, &mut mon) {
+        mkmap::judge(&w, &m, "identity", &mut mon);
+        let ops = mkmap::enumerate_ops(&m, &w, 12, &mut rng);
+        for (i, op) in ops.iter().enumerate() {
+            if i % 2 == 0 {
+                if let Some(c) = mkmap::apply(&m, op, &w) {
+                    mkmap::judge(&w, &c, &op.class(), &mut mon);
+                }
+            }
+        }
+    }
+    println!("[C09 miri-workload] operations={} semantic_witnesses_seen={} (judged by the normal run; this mode only feeds Miri)", mon.evaluations, mon.violations());
+    for (k, v) in &mon.counters {
+        if k.contains("outcome") || k.contains("panic") {
+            println!("[C09 miri-workload]   {k} = {v}");
+        }
+    }
+    std::process::exit(0)
+}
+
+fn main() {
+    let args = vcore::parse_args();
+    vcore::install_panic_hook();
+    if args.prop != "C09" {
+        eprintln!("mon-merkle: unknown property {}", args.prop);
+        std::process::exit(2);
+    }
+    if args.extra.iter().any(|a| a == "--miri-workload") {
+        miri_workload(args.seed);
+    }
+    let mut mon = Monitor::new(&args);
+    if let Err(e) = refs::self_test() {
+        mon.inconclusive(&format!("reference trees disagree with each other: {e}"));
+    }
+    let rule = "committed data = leaf lists generated by the harness; committed roots recomputed by reference trees written in the harness (heap tree with H([0]) padding / MMR with right-to-left peak bagging / H(key||root) map leaves). Candidates: (a) STM tree n=1..12 x every non-empty index subset x every single mutation of (leaves, indices, path values, nr_leaves, root) incl. every other position (padding, beyond, overflow), duplicates, unsorted, + sampled pairs, + sampled n<=600; (b) MKTree n=1..12 x every subset x every single mutation of the bincode form (leaf -> every other committed leaf / foreign / inner node, position -> every MMR position incl. inner ones, duplicate positions, mmr_size, items, root) + alternative pre-images with the same root (root as 1-leaf tree, inner level as leaves under a smaller mmr_size, byte moved across sibling leaves) + sampled pairs + sampled n<=2000; (c) block-range maps (all shapes up to the stated bound, then 1-8 ranges x 1-20 leaves, some nested) x sub-proof swapped / detached / key edited / master leaf replaced or duplicated / empty sub_proofs / every MKProof mutation on master and sub-proofs; MkSetProof / CardanoTransactionsSetProof with items added, renamed, moved, forged. A case is NON-TRIVIAL when at least one (position, leaf) / item it claims is false for the committed data (or the root was altered), i.e. acceptance would be a violation; distinct = distinct (committed root, wire bytes of the candidate).";
+    if let Some(path) = &args.replay {
+        if !replay(path, &mut mon) {
+            mon.inconclusive("replay file not understood (kinds: stm, mkproof, mkmap)");
+        }
+        mon.finish(rule, &[], 0);
+    }
+    let sz = sizes(args.tier);
+    let threads = vcore::default_threads();
+
+    // task list: one small task of every part first (evidence samples from every part), then the
+    // heavy exhaustive chunks, then the sampled shards
+    let nchunks = |n: usize| -> u64 { if n >= 8 { 1 << (n - 7) } else { 1 } };
+    let mut tasks: Vec<Task> = vec![];
+    #[cfg(feature = "full")]
+    tasks.push(Task::StmExhaustive { n: 6, chunk: 0, nchunks: 1 });
+    tasks.push(Task::MkExhaustive { n: 6, chunk: 0, nchunks: 1 });
+    tasks.push(Task::MapSampled { shard: 0 });
+    #[cfg(feature = "full")]
+    tasks.push(Task::SetProof { shard: 0 });
+    for n in (1..=sz.exhaustive_n).rev() {
+        if n == 6 {
+            continue;
+        }
+        for chunk in 0..nchunks(n) {
+            #[cfg(feature = "full")]
+            tasks.push(Task::StmExhaustive { n, chunk, nchunks: nchunks(n) });
+            tasks.push(Task::MkExhaustive { n, chunk, nchunks: nchunks(n) });
+        }
+    }
+    let map_exh_shards = if sz.map_exh_max_ranges >= 3 { 39 } else { 12 };
+    for shard in 0..map_exh_shards {
+        tasks.push(Task::MapExhaustive { shard, nshards: map_exh_shards });
+    }
+    #[cfg(feature = "full")]
+    for shard in 0..sz.stm_sampled_shards {
+        tasks.push(Task::StmSampled { shard });
+    }
+    for shard in 0..sz.mk_sampled_shards {
+        tasks.push(Task::MkSampled { shard });
+    }
+    for shard in 1..sz.map_sampled_shards {
+        tasks.push(Task::MapSampled { shard });
+    }
+    #[cfg(feature = "full")]
+    for shard in 1..sz.set_shards {
+        tasks.push(Task::SetProof { shard });
+    }
+
+    #[cfg(feature = "full")]
+    let pool = stm::key_pool(&mon, 40);
+
+    vcore::run_shards(&mut mon, tasks.len() as u64, threads, |i, m| {
+        m.max_samples = 2;
+        match &tasks[i as usize] {
+            #[cfg(feature = "full")]
+            Task::StmExhaustive { n, chunk, nchunks } => run_stm_exhaustive(&pool, *n, *chunk, *nchunks, sz.pairs, m),
+            #[cfg(feature = "full")]
+            Task::StmSampled { shard } => run_stm_sampled(&pool, *shard, &sz, m),
+            Task::MkExhaustive { n, chunk, nchunks } => run_mk_exhaustive(*n, *chunk, *nchunks, sz.pairs, m),
+            Task::MkSampled { shard } => run_mk_sampled(*shard, &sz, m),
+            Task::MapExhaustive { shard, nshards } => run_map_exhaustive(*shard, *nshards, sz.map_exh_max_ranges, sz.pairs, m),
+            Task::MapSampled { shard } => run_map_sampled(*shard, &sz, m),
+            #[cfg(feature = "full")]
+            Task::SetProof { shard } => run_setproof(*shard, &sz, m),
+        }
+    });
+
+    // completeness of the enumeration, as measured
+    let mut subsets = serde_json::Map::new();
+    let mut all_complete = true;
+    for n in 1..=sz.exhaustive_n {
+        let want = (1u64 << n) - 1;
+        let a = mon.counter(&format!("a:exhaustive_subsets_n={n:02}"));
+        let b = mon.counter(&format!("b:exhaustive_subsets_n={n:02}"));
+        subsets.insert(format!("n={n}"), json!({"subsets_expected": want, "stm_tree": a, "mktree": b}));
+        all_complete &= b == want && (cfg!(not(feature = "full")) || a == want);
+    }
+    mon.extra.insert(
+        "exhaustive_subspace".into(),
+        json!({
+            "description": format!("(a) STM registration tree and (b) MKTree: every tree size n = 1..{} x every non-empty subset of leaf indices (2^n - 1 honest proofs per n) x every single mutation of the enumerators stm::enumerate_ops / mk::enumerate_ops in exhaustive mode (each leaf -> every other committed leaf; each index/position -> every other position incl. padding / inner-node positions and 2-3 beyond; duplicates; every path value / item flipped, dropped, inserted; nr_leaves / mmr_size / root variants); (c) every map shape with 1..{} block ranges of 1..3 leaves x every non-empty selection of bottom leaves x all map-level mutations (tree-level mutations of master/sub-proofs capped at 30 sampled per proof). Pairs of mutations and larger sizes are sampled, not enumerated.", sz.exhaustive_n, sz.map_exh_max_ranges),
+            "per_size": subsets,
+            "map_shapes": mon.counter("c:exhaustive_map_shapes"),
+            "map_selections": mon.counter("c:exhaustive_selections"),
+            "complete": all_complete,
+        }),
+    );
+    mon.extra.insert("exhaustive".into(), json!(false));
+    if !all_complete {
+        mon.inconclusive("the exhaustive subspace was not enumerated completely (see coverage.exhaustive_subspace)");
+    }
+    mon.finish(
+        rule,
+        &[
+            "Blake2b-256 / Blake2s-256 collision and pre-image resistance (the adversary is structural)",
+            "panics inside verification on hostile indices/positions count as rejections (reported as verifier_panic@file:line counters)",
+            "MKProof/MKMapProof carry their own root: 'verifies against the commitment' = verify() is Ok AND root()/compute_root() equals the committed root recomputed by the reference",
+            "entries H(key||root) of a map's master proof count as committed (they are leaves of the committed master tree)",
+        ],
+        1000,
+    );
 }
